@@ -964,7 +964,10 @@ pub fn run_c05(tier: &str, seed: u64) -> Report {
         let key = pools.key(p, fi % pools.count(p));
         let f = &cat_ref[fi];
         let ia = if p.has_assertion() && fi % 3 == 0 { Some("ia") } else { None };
-        let token = match seal_at(layer, p, &key, &mut rng, JSON_MSG, f.as_deref(), ia) {
+        // at the core layer every fifth token carries the EMPTY message and every fifth a one-byte one (a shortcut taken for
+        // an empty ciphertext must not bypass the binding of the footer)
+        let msg = if layer == Layer::Core { [JSON_MSG, "", JSON_MSG, "x", JSON_MSG][fi % 5] } else { JSON_MSG };
+        let token = match seal_at(layer, p, &key, &mut rng, msg, f.as_deref(), ia) {
             Out::Ok(t) => t,
             o => {
                 r.inconclusive.push(format!("could not build a token for {} footer {:?}: {}", p.name(), f, o.brief()));
@@ -1063,6 +1066,49 @@ pub fn run_c05(tier: &str, seed: u64) -> Report {
         }
     });
     total.merge(r);
+    // re-cut across a LENGTH PREFIX of the pre-authentication encoding: if lengths n and n+d shared an encoding, the bytes
+    // `LE64(|F|) || F[..d-8]` could be moved from the footer into the message (or ciphertext) and the rest `F[d..]` presented
+    // as the footer, under the same signature / tag.  F is chosen so that F[d-8..d] reads as the length prefix of F[d..].
+    let mut rc = Report::new();
+    for &p in &ALL {
+        if p == P::V2L {
+            continue; // the ciphertext is not a piece of v2.local's encoding
+        }
+        let key = pools.key(p, 0);
+        let mut rng = Rng::new(seed, "c05-recut", p as u64);
+        for shift in [128usize, 256, 65536] {
+            let rest_len = 33usize;
+            let mut f: Vec<u8> = vec![b'q'; shift - 8];
+            f.extend_from_slice(&(rest_len as u64).to_le_bytes());
+            f.extend(std::iter::repeat(b'r').take(rest_len));
+            let fs = match String::from_utf8(f.clone()) {
+                Ok(x) => x,
+                Err(_) => continue,
+            };
+            let token = match core_seal(p, &key, &rng.bytes(32), JSON_MSG, Some(&fs), None).0 {
+                Out::Ok(t) => t,
+                _ => continue,
+            };
+            let parts = match crate::c03::parts(p, &token) {
+                Some(x) => x,
+                None => continue,
+            };
+            let cut = parts.payload.len().saturating_sub(p.trailer_len());
+            for len_field in [f.len() as u64, (f.len() - shift) as u64] {
+                let mut payload2 = parts.payload[..cut].to_vec();
+                payload2.extend_from_slice(&len_field.to_le_bytes());
+                payload2.extend_from_slice(&f[..shift - 8]);
+                payload2.extend_from_slice(&parts.payload[cut..]);
+                let f2 = &f[shift..];
+                let tok2 = format!("{}{}.{}", p.header(), util::b64(&payload2), util::b64(f2));
+                let c = C05Case { p, layer: Layer::Core, key: key.clone(), built_footer: Some(fs.clone()), supplied_footer: Some(String::from_utf8_lossy(f2).to_string()), ia: None, token: tok2, class: "footer-bytes-moved-into-the-body-across-a-length-prefix".into() };
+                c05_eval(&c, &mut rc);
+                rc.count("re-cut across a length prefix refused");
+            }
+        }
+    }
+    rc.require("re-cut across a length prefix refused", 30);
+    total.merge(rc);
     // footer LENGTH sweep: every length 0..=130 (all residues mod 3 of base64 and mod 16 / 64 of the hash blocks, both
     // sides of 127/128) plus 2^16-1 .. 2^16+1: built with that footer, opened with it, with its (len-1)-prefix and its
     // one-byte extension; core layer on every protocol, generic layer on v4
@@ -1132,7 +1178,7 @@ pub fn replay_c05(case: &Value) -> Report {
     r
 }
 
-pub const RULE_C05: &str = "8 protocols x 3 layers x footer catalogue (none, empty, 40 strings + 20 (thorough 300) seeded random ones; incl. prefix/extension pairs, case and whitespace variants, NUL suffix, NFC/NFD, strings whose base64 differs in the last character, strings that are themselves base64 or contain dots): a token is built with each footer F through that layer's builder and presented to that layer's parser with every expected footer F' of the catalogue; oracle: accept iff F' == F with none == empty (string equality in the harness). Plus a footer LENGTH sweep (every length 0..=130, 255..257, 65535..65537: built, opened with the same footer, its one-byte-shorter prefix and its one-byte extension). Plus parser sessions (the expected footer is changed between parses of one parser object) and 160 (thorough 2000) NESTED pairs of them (a second parser object is created, used and dropped in the middle of another one's session on the same thread; both must answer as alone). Plus the footer segment of every produced token compared with the harness's own base64url encoder, and edits of the segment (removed, emptied, replaced with and without matching expectation, extended, truncated, raw text, added to a footer-less token with a matching, an empty and NO expectation). distinct_nontrivial = distinct (protocol, layer, built class, supplied class) for accepted pairs and (protocol, layer, case class, rejection variant) for rejected ones";
+pub const RULE_C05: &str = "8 protocols x 3 layers x footer catalogue (none, empty, 40 strings + 20 (thorough 300) seeded random ones; incl. prefix/extension pairs, case and whitespace variants, NUL suffix, NFC/NFD, strings whose base64 differs in the last character, strings that are themselves base64 or contain dots): a token is built with each footer F through that layer's builder and presented to that layer's parser with every expected footer F' of the catalogue; oracle: accept iff F' == F with none == empty (string equality in the harness). Plus a re-cut across a length prefix (the first d bytes of the footer, preceded by the footer's length field, are moved behind the message / ciphertext and the rest is presented as footer, d in {128, 256, 65536}: collides iff the PAE length encoding is not injective). Plus a footer LENGTH sweep (every length 0..=130, 255..257, 65535..65537: built, opened with the same footer, its one-byte-shorter prefix and its one-byte extension). Plus parser sessions (the expected footer is changed between parses of one parser object) and 160 (thorough 2000) NESTED pairs of them (a second parser object is created, used and dropped in the middle of another one's session on the same thread; both must answer as alone). Plus the footer segment of every produced token compared with the harness's own base64url encoder, and edits of the segment (removed, emptied, replaced with and without matching expectation, extended, truncated, raw text, added to a footer-less token with a matching, an empty and NO expectation). distinct_nontrivial = distinct (protocol, layer, built class, supplied class) for accepted pairs and (protocol, layer, case class, rejection variant) for rejected ones";
 
 // ==========================================================================================
 // C06
@@ -1219,7 +1265,10 @@ pub fn run_c06(tier: &str, seed: u64) -> Report {
         let key = pools.key(p, ai % pools.count(p));
         let a = &cat_ref[ai];
         let footer = [None, Some("ftr"), Some("")][ai % 3];
-        let token = match seal_at(layer, p, &key, &mut rng, JSON_MSG, footer, a.as_deref()) {
+        // at the core layer every fifth token carries the EMPTY message and every fifth a one-byte one (a shortcut taken for
+        // an empty ciphertext must not bypass the binding of the assertion)
+        let msg = if layer == Layer::Core { [JSON_MSG, "", JSON_MSG, "x", JSON_MSG][ai % 5] } else { JSON_MSG };
+        let token = match seal_at(layer, p, &key, &mut rng, msg, footer, a.as_deref()) {
             Out::Ok(t) => t,
             o => {
                 r.inconclusive.push(format!("could not build a token for {} assertion {:?}: {}", p.name(), a, o.brief()));
